@@ -124,6 +124,13 @@ def run(M, rep, tier, only=None):
     R5 = rep.rule("C08.R5", "bounds test: refuses missing/empty slices and stops beyond the extent", floor=6,
                   technique="decision-table extraction evaluated on representatives")
 
+    R9 = rep.rule("C08.R9", "a tag object keeps nothing it computed from one referenced array for the next (unit factors, slices)", floor=1,
+                  technique="stateless-handle classification (see C02.R7)")
+    from . import stateless
+    n9 = stateless.run(M, rep, R9, only_classes={"BaseTag", "Tag", "MultiTag", "Feature"})
+    if not n9:
+        rep.ok(R9, "tag handles", "no instance attribute or per-handle table is written outside the constructors")
+
     # the three private helpers: by name, else by role (what tagged_data calls) when a refactoring renamed / re-homed them
     from .common import private_helper
     argn = lambda h: [a.arg for a in h.node.args.args]
